@@ -2142,6 +2142,18 @@ struct VectorizedVoidMaskableMemberFunction1 {
     static reference_type
     apply(reference_type array, arg1_type arg1)
     {
+        // The right hand side may be another view of the storage that this
+        // operation modifies (a[m1] += a[m2]): position i would read what
+        // position j has written, in whatever order a WorkerPool happens
+        // to run the sub-ranges.  Work from a copy of it.
+        if ((const void *) &array != (const void *) &arg1 &&
+            array.sharesStorageWith(arg1))
+        {
+            const typename remove_reference<arg1_type>::type
+                copy (array.copyOf(arg1));
+            return apply(array, copy);
+        }
+
         PY_IMATH_LEAVE_PYTHON;
         size_t len = array.match_dimension(arg1, false);
         op_precompute<Op>::apply(len);
